@@ -65,8 +65,11 @@ def run(ctx):
     ctx.rules.pop('R3.4b', None)
     ctx.floors.pop('R3.4b', None)
     from .. import rules_base as RB
+    from .. import rules_lexer as RL_
+    ctx.rule('R11.S', 'Lexer.get_tokens interpreted on short texts agrees token by token with the rule-table model the other rules use', floor=1)
+    RL_.check_scan_semantics(ctx, 'R11.S')
     ctx.rule('R11.B', 'base model: token-type containment, token flags / normal form, Token.match and imt behave as the abstract evaluation assumes', floor=1)
-    RB.check_base_model(ctx, 'R11.B', parts=('contains', 'flags', 'match', 'imt'))
+    RB.check_base_model(ctx, 'R11.B', parts=('contains', 'flags', 'match', 'imt', 'nav'))
     # the vocabulary argument is about one scan of the whole text and one splitter pass over its tokens: a front end that
     # cuts the input (at line ends, at block boundaries) separates the words of ORDER\nBY / END\nIF before the lexer sees them
     from .. import rules_stack as RK
